@@ -189,8 +189,44 @@ def levy_harness(cfg, split):
     return h
 
 
+def seedkey_task(_):
+    """one-step induction on the REAL _set_spawn_key_and_depth: from arbitrary distinct parents (symbolic non-negative integer
+    keys, equal depth) or from the same parent on different sides, the children's (spawn_key, depth) pairs are distinct.
+    Together with distinct keys at the root this gives injectivity node -> SeedSequence key at EVERY depth."""
+    B.setup()
+    E = Engine(max_paths=200, timeout_ms=30000)
+
+    class P:      # a parent as far as _set_spawn_key_and_depth is concerned
+        pass
+
+    def child(parent_key, depth, is_left):
+        par = P(); par._spawn_key = parent_key; par._depth = depth
+        ch = B.bi._Interval.__new__(B.bi._Interval)
+        ch._parent = par; ch._is_left = is_left
+        B.bi._Interval._set_spawn_key_and_depth(ch)
+        return ch._spawn_key, ch._depth
+
+    def h(E):
+        k1 = E.input_int('k1', 5, lo=0); k2 = E.input_int('k2', 9, lo=0)
+        depth = E.input_int('depth', 3, lo=0)
+        for l1 in (True, False):
+            for l2 in (True, False):
+                a, da = child(k1, depth, l1)
+                b, db = child(k2, depth, l2)
+                same_parent_side = (k1 == k2).n if l1 == l2 else dag.Node('not', dag.Node('true'))
+                keys_equal = (a == b).n if hasattr(a == b, 'n') else (dag.Node('true') if a == b else dag.Node('not', dag.Node('true')))
+                # equal child keys (at equal depth) only for the same parent and the same side
+                E.prove(f'seed-key-injective[{l1},{l2}]', dag.Node('or', dag.Node('not', keys_equal), same_parent_side))
+                E.prove('depth-increments', (da == depth + 1) & (db == depth + 1))
+    fails = E.explore(h)
+    return dict(kind='seedkey', cfg={}, a=None, b=None, stats=E.stats, wall=0.0, samples=E.path_log[:1],
+                failures=[dict(what=f.what, kind=f.kind, inputs={k: str(v) for k, v in f.inputs.items()}, detail=f.detail[:400]) for f in fails[:5]], nfail=len(fails))
+
+
 def run_one(task):
     kind, cfg, a, b, max_paths, timeout_ms = task
+    if kind == 'seedkey':
+        return seedkey_task(None)
     B.setup()
     E = Engine(max_paths=max_paths, timeout_ms=timeout_ms)
     t = time.time()
@@ -218,6 +254,7 @@ def tasks_for(tier):
         # deeper tree with H: exact algebraic arithmetic at rational times (symbolic noise) after a prior query
         ('law', dict(levy='foster', size=(1,), cache_size=0, t0=F(-1, 2), t1=F(3, 2), times=[F(-1, 4), F(1, 3), F(1, 1)],
                      prior_times=[[F(0), F(1, 2)]]), 1, 2, mp, to),
+        ('seedkey', {}, None, None, mp, to),
         ('levy', dict(levy='davie', size=(1, 2)), False, None, mp, to),
         ('levy', dict(levy='foster', size=(1, 2)), False, None, mp, to),
         ('levy', dict(levy='davie', size=(1, 2), sym_ends=True), True, None, mp, to),
@@ -296,6 +333,24 @@ def replay(data):
     import torch
     from torchsde._brownian import brownian_interval as rbi
     r = data['replay']
+    if r['kind'] == 'seedkey':
+        # build deep trees through the public API (a fixed-step sweep with a dt hint gives chains of right children) and look
+        # for two different nodes with the same noise seeds
+        import torchsde
+        bad = []
+        for n in (72, 150):
+            bm = torchsde.BrownianInterval(0., 1., size=(1,), dtype=torch.float64, entropy=5, dt=1.0 / n)
+            for k in range(n):
+                bm(k / n, (k + 1) / n)
+            seen = {}
+            for nd in B.nodes_of(bm):
+                if nd._midway is not None:
+                    key = (int(nd._W_seed), int(nd._H_seed))
+                    if key in seen:
+                        bad.append(f'nodes [{seen[key]._start:.4f},{seen[key]._end:.4f}] and [{nd._start:.4f},{nd._end:.4f}] share noise seeds {key}')
+                    seen[key] = nd
+        print('replay C04 seeds:', bad[:3] or 'all node seeds distinct')
+        return bool(bad)
     cfg = dict(B.DEFAULT); cfg.update(r['cfg'])
     inp = {k: float(Fraction(v)) for k, v in r['inputs'].items()}
     size = tuple(cfg['size'])
